@@ -325,7 +325,18 @@ def _exact_inverse(A):
     for i in range(n):
         for j in range(n):
             out[i, j] = M[i][n + j]
-    return out.view(SymArray)
+    out = out.view(RecExactInverse)
+    out._A = A
+    return out
+
+
+class RecExactInverse(SymArray):
+    """exact rational inverse of a concrete matrix that records what it is multiplied with."""
+
+    def __matmul__(self, b):
+        x = np.asarray(self).view(SymArray) @ b
+        cap("inv", A=getattr(self, "_A", None), b=b, x=list(np.asarray(x, dtype=object).reshape(-1)))
+        return x
 
 
 class SymInverse:
